@@ -405,7 +405,20 @@ def run_reconfigure(case, env):
             elif step == "use-shared":
                 _rc.Reconfigure.to_use_shared(cd).apply(force=False)
             elif step == "stacked":
-                _rc.ReconfigureStackedOn().apply(cd, parent.base)
+                try:
+                    _rc.ReconfigureStackedOn().apply(cd, parent.base)
+                except errors.IncompatibleRepositories as e:
+                    # documented refusal of stacking across repository models;
+                    # accepted only when the two repositories really differ in
+                    # rich-root support (to_standalone of a lightweight
+                    # checkout creates a default-format repository, whatever
+                    # the format of the branch it referred to)
+                    mine = _branch.Branch.open(path).repository
+                    check(mine.supports_rich_root() !=
+                          parent.repository.supports_rich_root(),
+                          "C52/stacking-on-a-compatible-repository-refused",
+                          [src, action["steps"], str(e)[:300]])
+                    raise _rc.ReconfigurationNotSupported(cd) from None
             elif step == "unstacked":
                 _rc.ReconfigureUnstacked().apply(cd)
             elif step in ("with-trees", "no-trees"):
@@ -445,16 +458,21 @@ def run_reconfigure(case, env):
                       "C52/in-step-branches-reported-unsynced",
                       [src, action["steps"], step])
             post = observe(path, v3=True)
-            if isinstance(e, errors.UpgradeRequired) and \
+            if isinstance(e, (errors.UpgradeRequired, _rc.NoBindLocation)) \
+                    and step in ("checkout", "checkout-to") and \
                     pre["tree"] is None and post["tree"] is not None and \
                     all(post[k] == pre[k] for k in ("tip", "tags",
                                                     "testaments")):
-                # open finding (reported at the end of the case): the branch
-                # format cannot be bound, which apply() notices only after
-                # it has created the working tree
+                # open findings (reported at the end of the case): apply()
+                # binds last - that the branch format cannot be bound, or
+                # that there is no location to bind to, is noticed only after
+                # the working tree has been created
                 deferred.append((
                     "C52/refused-reconfigure-to-checkout-left-a-new-working-"
-                    "tree-behind", [src, action["steps"], step]))
+                    "tree-behind" if isinstance(e, errors.UpgradeRequired) else
+                    "C52/reconfigure-to-checkout-without-a-bind-location-left-"
+                    "a-new-working-tree-behind",
+                    [src, action["steps"], step]))
             else:
                 check(post == pre, "C52/refused-reconfigure-changed-something",
                       [src, step, type(e).__name__, diff(pre, post)])
